@@ -219,6 +219,40 @@ Section Merged.
   Qed.
 End Merged.
 
+(** * Unique roles stay unique *)
+
+Lemma unique_at_image p pM fp fg : Emb p pM fp fg -> roles_unique p ->
+  forall r, role_max (g_entity pM) r = Some 1 ->
+  forall h, In h fg -> length (members_with_role pM (Some r) h) <= 1.
+Proof.
+  intros E U r Hr h Hh. destruct (In_nth _ _ 0 Hh) as [g [Hg <-]].
+  rewrite (e_lg _ _ _ _ E) in Hg. rewrite (image_members_length _ _ _ _ E r g Hg).
+  rewrite (e_ent _ _ _ _ E) in Hr. exact (U r Hr g Hg).
+Qed.
+
+Lemma roles_unique_permuted p fp fg : wf_pop p ->
+  is_perm_b fp (npersons p) = true -> is_perm_b fg (g_count p) = true ->
+  roles_unique p -> roles_unique (place_pop fp fg p).
+Proof.
+  intros W Hp Hg U r Hr h Hh.
+  apply (unique_at_image _ _ _ _ (emb_place p fp fg W Hp Hg) U r Hr).
+  apply (is_perm_spec _ _ Hg). exact Hh.
+Qed.
+
+Lemma roles_unique_merged p1 p2 f1 f2 g1 g2 : wf_pop p1 -> wf_pop p2 ->
+  g_entity p2 = g_entity p1 ->
+  interleaving f1 f2 (npersons p1) (npersons p2) = true ->
+  interleaving g1 g2 (g_count p1) (g_count p2) = true ->
+  roles_unique p1 -> roles_unique p2 -> roles_unique (merge_pop f1 f2 g1 g2 p1 p2).
+Proof.
+  intros W1 W2 He Hf Hg U1 U2 r Hr h Hh.
+  destruct (interleaving_spec _ _ _ _ Hg) as [_ [_ P]].
+  assert (Hin : In h (g1 ++ g2)) by (apply (is_perm_spec _ _ P); exact Hh).
+  apply in_app_or in Hin as [Hin|Hin].
+  - exact (unique_at_image _ _ _ _ (emb_merged_1 p1 p2 f1 f2 g1 g2 W1 W2 Hf Hg) U1 r Hr h Hin).
+  - exact (unique_at_image _ _ _ _ (emb_merged_2 p1 p2 f1 f2 g1 g2 W1 W2 He Hf Hg) U2 r Hr h Hin).
+Qed.
+
 (** * Inputs *)
 
 Lemma lookup_map_vals (h : key -> val -> val) k (l : inputs) :
@@ -394,6 +428,7 @@ End InputsPermuted.
 Theorem merge_independence_lemma : forall sy pp1 pp2 inp1 inp2 f1 f2 g1 g2,
   kinded sy = true ->
   wf_pop (grp pp1) -> wf_pop (grp pp2) -> g_entity (grp pp2) = g_entity (grp pp1) ->
+  roles_unique (grp pp1) -> roles_unique (grp pp2) ->
   interleaving f1 f2 (npersons (grp pp1)) (npersons (grp pp2)) = true ->
   interleaving g1 g2 (g_count (grp pp1)) (g_count (grp pp2)) = true ->
   inputs_wf sy pp1 inp1 -> inputs_wf sy pp2 inp2 -> map fst inp1 = map fst inp2 ->
@@ -408,26 +443,31 @@ Theorem merge_independence_lemma : forall sy pp1 pp2 inp1 inp2 f1 f2 g1 g2,
           (sem sy (merge f1 f2 g1 g2 pp1 pp2) (merge_inputs sy f1 f2 g1 g2 inp1 inp2) v p)
      = sem sy pp2 inp2 v p).
 Proof.
-  intros sy pp1 pp2 inp1 inp2 f1 f2 g1 g2 K W1 W2 He Hf Hg I1 I2 Hk v p. split; intros Hpos.
-  - apply (sem_emb pp1 (merge f1 f2 g1 g2 pp1 pp2) f1 g1); [|exact Hpos|exact K|].
+  intros sy pp1 pp2 inp1 inp2 f1 f2 g1 g2 K W1 W2 He U1 U2 Hf Hg I1 I2 Hk v p.
+  assert (UM : roles_unique (grp (merge f1 f2 g1 g2 pp1 pp2)))
+    by (cbn [merge grp]; now apply roles_unique_merged).
+  split; intros Hpos.
+  - apply (sem_emb pp1 (merge f1 f2 g1 g2 pp1 pp2) f1 g1); [|exact Hpos|exact U1|exact UM|exact K|].
     + cbn [merge grp]. now apply emb_merged_1.
     + now apply inputs_rel_merged_1.
-  - apply (sem_emb pp2 (merge f1 f2 g1 g2 pp1 pp2) f2 g2); [|exact Hpos|exact K|].
+  - apply (sem_emb pp2 (merge f1 f2 g1 g2 pp1 pp2) f2 g2); [|exact Hpos|exact U2|exact UM|exact K|].
     + cbn [merge grp]. now apply emb_merged_2.
     + now apply inputs_rel_merged_2.
 Qed.
 
 Theorem permutation_equivariance_lemma : forall sy pp inp sp sg,
-  kinded sy = true -> wf_pop (grp pp) -> 0 < npersons (grp pp) ->
+  kinded sy = true -> wf_pop (grp pp) -> 0 < npersons (grp pp) -> roles_unique (grp pp) ->
   is_perm_b sp (npersons (grp pp)) = true -> is_perm_b sg (g_count (grp pp)) = true ->
   inputs_wf sy pp inp ->
   forall v p,
     sem sy (permute sp sg pp) (permute_inputs sy sp sg inp) v p
     = rmap (place (pick (ent_of sy v) sp sg)) (sem sy pp inp v p).
 Proof.
-  intros sy pp inp sp sg K W Hpos Hp Hg I v p.
+  intros sy pp inp sp sg K W Hpos U Hp Hg I v p.
   assert (E : Emb (grp pp) (grp (permute sp sg pp)) sp sg) by (cbn [permute grp]; now apply emb_place).
-  pose proof (sem_rel pp (permute sp sg pp) sp sg E Hpos sy _ _ K
+  assert (UP : roles_unique (grp (permute sp sg pp)))
+    by (cbn [permute grp]; now apply roles_unique_permuted).
+  pose proof (sem_rel pp (permute sp sg pp) sp sg E Hpos U UP sy _ _ K
                 (inputs_rel_permuted sy pp sp sg inp Hp Hg I) v p) as H.
   destruct (sem sy (permute sp sg pp) (permute_inputs sy sp sg inp) v p) as [aM|eM],
            (sem sy pp inp v p) as [a|e]; cbn [Rr rmap] in *; try contradiction.
@@ -443,6 +483,7 @@ Qed.
 Theorem merge_independence_calc_lemma : forall sy pp1 pp2 inp1 inp2 f1 f2 g1 g2,
   ranked sy = true -> 1 <= max_loops sy -> kinded sy = true ->
   wf_pop (grp pp1) -> wf_pop (grp pp2) -> g_entity (grp pp2) = g_entity (grp pp1) ->
+  roles_unique (grp pp1) -> roles_unique (grp pp2) ->
   interleaving f1 f2 (npersons (grp pp1)) (npersons (grp pp2)) = true ->
   interleaving g1 g2 (g_count (grp pp1)) (g_count (grp pp2)) = true ->
   inputs_wf sy pp1 inp1 -> inputs_wf sy pp2 inp2 -> map fst inp1 = map fst inp2 ->
@@ -456,24 +497,24 @@ Theorem merge_independence_calc_lemma : forall sy pp1 pp2 inp1 inp2 f1 f2 g1 g2,
     rmap (restrict (pick (ent_of sy v) f2 g2)) (snd (calc (enough_fuel sy) sy ppM sM v p))
     = snd (calc (enough_fuel sy) sy pp2 s2 v p).
 Proof.
-  intros sy pp1 pp2 inp1 inp2 f1 f2 g1 g2 R L K W1 W2 He Hf Hg I1 I2 Hk P1 P2 ppM inpM sM s1 s2 v p TM T1 T2.
+  intros sy pp1 pp2 inp1 inp2 f1 f2 g1 g2 R L K W1 W2 He U1 U2 Hf Hg I1 I2 Hk P1 P2 ppM inpM sM s1 s2 v p TM T1 T2.
   rewrite (proj1 (calculate_refines_meaning sy ppM inpM R L sM v p TM)).
   rewrite (proj1 (calculate_refines_meaning sy pp1 inp1 R L s1 v p T1)).
   rewrite (proj1 (calculate_refines_meaning sy pp2 inp2 R L s2 v p T2)).
-  destruct (merge_independence_lemma sy pp1 pp2 inp1 inp2 f1 f2 g1 g2 K W1 W2 He Hf Hg I1 I2 Hk v p) as [A B].
+  destruct (merge_independence_lemma sy pp1 pp2 inp1 inp2 f1 f2 g1 g2 K W1 W2 He U1 U2 Hf Hg I1 I2 Hk v p) as [A B].
   split; [now apply A|now apply B].
 Qed.
 
 Theorem permutation_equivariance_calc_lemma : forall sy pp inp sp sg,
   ranked sy = true -> 1 <= max_loops sy -> kinded sy = true ->
-  wf_pop (grp pp) -> 0 < npersons (grp pp) ->
+  wf_pop (grp pp) -> 0 < npersons (grp pp) -> roles_unique (grp pp) ->
   is_perm_b sp (npersons (grp pp)) = true -> is_perm_b sg (g_count (grp pp)) = true ->
   inputs_wf sy pp inp ->
   forall sP s v p, Top sy (permute sp sg pp) (permute_inputs sy sp sg inp) sP -> Top sy pp inp s ->
     snd (calc (enough_fuel sy) sy (permute sp sg pp) sP v p)
     = rmap (place (pick (ent_of sy v) sp sg)) (snd (calc (enough_fuel sy) sy pp s v p)).
 Proof.
-  intros sy pp inp sp sg R L K W Hpos Hp Hg I sP s v p TP T.
+  intros sy pp inp sp sg R L K W Hpos U Hp Hg I sP s v p TP T.
   rewrite (proj1 (calculate_refines_meaning sy _ _ R L sP v p TP)).
   rewrite (proj1 (calculate_refines_meaning sy pp inp R L s v p T)).
   now apply permutation_equivariance_lemma.
